@@ -313,8 +313,30 @@ class Interp:
                 a.data[i] = x - v
             elif sym == "*":
                 a.data[i] = x * v
+            elif sym == "/":
+                a.data[i] = int(x / v)            # truncating division
+            elif sym == "%":
+                a.data[i] = x - v * int(x / v)    # remainder takes the dividend's sign
             else:
                 return False
+            return True
+        if k == "tmp_nest":
+            # a temporary outer list that holds this list dies inside a helper; the inner list lives on
+            if a.t != "li":
+                return False
+            if "h_nest" not in self.defined:
+                self.defined.add("h_nest")
+                em.code("h_nest = fn(p: [int...]) -> int {\n\tt: [[int...]...] = [p, p]\n\tu = map[str, int] {\"k\": p.len()}\n\treturn t.len() + u.len()\n}")
+            em.code("print h_nest(%s)" % an)
+            em.out("3")
+            return True
+        if k == "filter_len":
+            # the list returned by filter is dropped at once; the inner lists it shared with the receiver live on
+            if a.t != "ln":
+                return False
+            self.need_cb("cb_nonempty")
+            em.code("print %s.filter(cb_nonempty).len()" % an)
+            em.out(str(sum(1 for x in a.data if self.call_cb("cb_nonempty", x))))
             return True
         if k == "remove":
             i = op["i"]
@@ -487,7 +509,8 @@ def gen_op(rng, it):
         n = len(o.data)
         kind = rng.weighted([("push", 6), ("remove", 4), ("read", 4), ("write", 4), ("opassign", 3), ("reverse", 2), ("join", 2),
                              ("clear", 1), ("clone", 2), ("alias", 3), ("map", 3), ("filter", 3), ("index_of", 3), ("len", 2),
-                             ("eq", 2), ("concat", 2), ("bind", 2), ("push_fn", 1), ("new_from", 2), ("cap_call", 2), ("push_from", 1)])
+                             ("eq", 2), ("concat", 2), ("bind", 2), ("push_fn", 1), ("new_from", 2), ("cap_call", 2), ("push_from", 1),
+                             ("tmp_nest", 2), ("filter_len", 2)])
         op = {"op": kind, "a": a}
         if kind == "new_from":
             return {"op": kind, "a": a, "i": rng.below(8), "t": rng.choice(["li", "msi"]), "v": rng.choice(INTS), "k": rng.choice(SKEYS)}
@@ -512,7 +535,9 @@ def gen_op(rng, it):
             else:
                 op["v"] = rng.choice(INTS)
             if kind == "opassign":
-                op["sym"] = rng.choice(["+", "+", "-", "*"]) if o.t == "li" else "+"
+                op["sym"] = rng.choice(["+", "+", "-", "*", "/", "%"]) if o.t == "li" else "+"
+                if op["sym"] in ("/", "%") and op["v"] == 0:
+                    op["v"] = 3
             if kind == "push_fn" and n == 0:
                 op["op"] = "push"
         if kind in ("remove", "read", "write", "opassign", "concat", "bind"):
